@@ -28,7 +28,7 @@ ANCHORS = [
     "job_shop_lib.reinforcement_learning._single_job_shop_graph_env:SingleJobShopGraphEnv.step",
 ]
 ASSUMPTIONS = ["idle time = sum over machines of the gaps before each operation up to the last one"]
-REQUIRED_COUNTERS = {"prefix_checks": 2000, "env_step_reward_checks": 200,
+REQUIRED_COUNTERS = {"attached_mid_history_then_reset": 20, "factory_reget_after_unsubscribe": 20, "prefix_checks": 2000, "env_step_reward_checks": 200,
                      "after_reset_histories": 20, "multi_env_steps": 30}
 WORKERS = {"quick": 1, "thorough": 14}
 
@@ -37,7 +37,8 @@ def gen_cases(ctx):
     rng = ctx.rng
     for i in range(ctx.scale(6000, 150000)):
         c = gen_history_case(rng, max_jobs=rng.choice([2, 3, 4, 5, 6]), max_machines=rng.choice([2, 3, 4, 5]))
-        c["kind"] = ["standalone", "standalone", "env", "standalone_reset"][i % 4]
+        c["kind"] = ["standalone", "standalone_factory", "env", "standalone_reset",
+                     "standalone_midhistory"][i % 5]
         c["reward"] = rng.choice(["makespan", "idle"])
         yield c
     for i in range(ctx.scale(60, 1500)):
@@ -71,10 +72,38 @@ def run_case(ctx, case):
 
     rng = random.Random(case["seed"])
     kind = case["kind"]
-    if kind in ("standalone", "standalone_reset"):
+    if kind in ("standalone", "standalone_reset", "standalone_factory", "standalone_midhistory"):
         run = Run(case["instance"], case.get("filter"))
         order = rng.random() < 0.5
-        if order:
+        if kind == "standalone_midhistory":
+            # observers attached to a dispatcher that already holds a partial schedule; they are
+            # judged from the next reset on (a reset must make them start from zero)
+            for _ in range(rng.randint(1, run.r.num_ops)):
+                o, m = run.choose(rng, "random_ready"); run.dispatch(o, m)
+            mk = MakespanReward(run.d); idle = IdleTimeReward(run.d)
+            for _ in range(rng.randint(0, run.r.num_ops - len(run.r.history))):
+                o, m = run.choose(rng, "random_ready"); run.dispatch(o, m)
+            if any(x > 0 for x in mk.rewards + idle.rewards):
+                ctx.violation("c13_positive_reward", {"where": "attached mid-history",
+                                                      "rewards": [mk.rewards, idle.rewards]})
+            run.d.reset(); run.r.reset()
+            ctx.count("attached_mid_history_then_reset")
+        elif kind == "standalone_factory":
+            # observers obtained through the dispatcher's factory, dropped and obtained again
+            mk = run.d.create_or_get_observer(MakespanReward)
+            idle = run.d.create_or_get_observer(IdleTimeReward)
+            for _ in range(rng.randint(1, run.r.num_ops)):
+                o, m = run.choose(rng, "random_ready"); run.dispatch(o, m)
+            run.d.unsubscribe(mk); run.d.unsubscribe(idle)
+            run.d.reset(); run.r.reset()
+            mk2 = run.d.create_or_get_observer(MakespanReward)
+            idle2 = run.d.create_or_get_observer(IdleTimeReward)
+            ctx.count("factory_reget_after_unsubscribe")
+            if mk2 not in run.d.subscribers or idle2 not in run.d.subscribers:
+                ctx.violation("c13_factory_returned_unsubscribed_reward_observer",
+                              {"subscribers": [repr(x) for x in run.d.subscribers]})
+            mk, idle = mk2, idle2
+        elif order:
             mk = MakespanReward(run.d); idle = IdleTimeReward(run.d)
         else:
             idle = IdleTimeReward(run.d); mk = MakespanReward(run.d)
